@@ -214,18 +214,58 @@ func xxHashOfSortedKeyValuesOnSlice(slice []byte, kvs KeyValues) uint64 {
 	return xxhash.Sum64(slice[:cursor])
 }
 
-// ConcatTagValues concat the tag values to string
+// ConcatTagValues concat the tag values to string,
+// ',' and '\' of a tag value are escaped with '\', because ',' is separator of tag values.
 func ConcatTagValues(tagValues []string) string {
 	if len(tagValues) == 0 {
 		return ""
 	}
-	return strings.Join(tagValues, ",")
+	needEscape := false
+	for _, tagValue := range tagValues {
+		if strings.ContainsAny(tagValue, ",\\") {
+			needEscape = true
+			break
+		}
+	}
+	if !needEscape {
+		return strings.Join(tagValues, ",")
+	}
+	var b strings.Builder
+	for idx, tagValue := range tagValues {
+		if idx > 0 {
+			b.WriteByte(',')
+		}
+		for i := 0; i < len(tagValue); i++ {
+			if tagValue[i] == ',' || tagValue[i] == '\\' {
+				b.WriteByte('\\')
+			}
+			b.WriteByte(tagValue[i])
+		}
+	}
+	return b.String()
 }
 
-// SplitTagValues splits the string of tag values to array
+// SplitTagValues splits the string of tag values(built by ConcatTagValues) to array
 func SplitTagValues(tags string) []string {
 	if tags == "" {
 		return []string{}
 	}
-	return strings.Split(tags, ",")
+	if !strings.Contains(tags, "\\") {
+		return strings.Split(tags, ",")
+	}
+	var rs []string
+	var b strings.Builder
+	for i := 0; i < len(tags); i++ {
+		switch {
+		case tags[i] == '\\' && i+1 < len(tags):
+			i++
+			b.WriteByte(tags[i])
+		case tags[i] == ',':
+			rs = append(rs, b.String())
+			b.Reset()
+		default:
+			b.WriteByte(tags[i])
+		}
+	}
+	return append(rs, b.String())
 }
